@@ -138,6 +138,8 @@ pub struct WorldCfg {
     pub providers: Vec<Which>,
     /// a re-joining party keeps the epoch records of its earlier membership (C07 scenario)
     pub keep_stale_store: bool,
+    /// the group context carries an ExternalSendersExt naming `World::ext_signer` (C16)
+    pub external_senders: bool,
 }
 
 impl Default for WorldCfg {
@@ -151,6 +153,7 @@ impl Default for WorldCfg {
             retention: 3,
             providers: vec![Which::Rust],
             keep_stale_store: false,
+            external_senders: false,
         }
     }
 }
@@ -234,6 +237,8 @@ pub struct World {
     pub trail: Vec<String>,
     pub clock: u64,
     pub group_id: Vec<u8>,
+    /// signing key and identity of the external sender named in the group context (C16)
+    pub ext_signer: Option<(SignatureSecretKey, SigningIdentity)>,
 }
 
 pub fn time(secs: u64) -> MlsTime {
@@ -307,6 +312,11 @@ impl World {
             let which = cfg.providers[i % cfg.providers.len()];
             parties.push(Party { id: i as u32, name, which, client, group: None, signer, identity, rekeys: 0, pending_rekey: None });
         }
+        let ext_signer = cfg.external_senders.then(|| {
+            let cs = DynProvider::new(cfg.providers[0], 900).cipher_suite_provider(CipherSuite::new(cfg.suite)).expect("MACHINERY: suite");
+            let (sk, pk) = cs.signature_key_generate().expect("MACHINERY: keygen");
+            (sk, SigningIdentity::new(BasicCredential::new(b"observer".to_vec()).into_credential(), pk))
+        });
         World {
             cfg,
             parties,
@@ -316,6 +326,7 @@ impl World {
             trail: Vec::new(),
             clock: *CLOCK0,
             group_id: b"verif-group".to_vec(),
+            ext_signer,
         }
     }
 
@@ -363,10 +374,23 @@ impl World {
 
     // ---------------------------------------------------------------- primitives
 
+    /// Group context extensions carrying custom extension value `v` (None: without it) and,
+    /// if configured, the external senders list.
+    pub fn context_ext(&self, v: Option<u8>) -> ExtensionList {
+        let mut l = match v {
+            Some(v) => custom_ext(v),
+            None => ExtensionList::new(),
+        };
+        if let Some((_, id)) = &self.ext_signer {
+            l.set_from(mls_rs::extension::built_in::ExternalSendersExt::new(vec![id.clone()])).expect("MACHINERY: ext");
+        }
+        l
+    }
+
     pub fn create(&mut self, p: usize) -> Result<(), MlsError> {
         let g = self.parties[p].client.create_group_with_id(
             self.group_id.clone(),
-            ExtensionList::new(),
+            self.context_ext(None),
             ExtensionList::new(),
             self.now(),
         )?;
@@ -416,16 +440,19 @@ impl World {
             .filter_map(|pr| if let Prop::Remove(x) = pr { Some((*x, self.leaf_of(*x))) } else { None })
             .collect();
         let suite = CipherSuite::new(self.cfg.suite);
+        let gce: Vec<ExtensionList> = spec.props.iter().map(|pr| if let Prop::Gce(v) = pr { self.context_ext(Some(*v)) } else { ExtensionList::new() }).collect();
+        let mut gce = gce.into_iter();
         let g = self.gm(by);
         let mut b = g.commit_builder();
         let mut kps = kps.into_iter();
         for pr in &spec.props {
+            let ext = gce.next().unwrap();
             b = match pr {
                 Prop::Add(_) => b.add_member(kps.next().unwrap())?,
                 Prop::Remove(x) => b.remove_member(leaves.iter().find(|(p, _)| p == x).unwrap().1)?,
                 Prop::ExternalPsk(id) => b.add_external_psk(Self::psk_id(*id))?,
                 Prop::ResumptionPsk(e) => b.add_resumption_psk(*e)?,
-                Prop::Gce(v) => b.set_group_context_ext(custom_ext(*v))?,
+                Prop::Gce(_) => b.set_group_context_ext(ext)?,
                 Prop::Custom(v) => b.custom_proposal(CustomProposal::new(ProposalType::new(CUSTOM_PROP), vec![*v])),
                 Prop::ReInit => b.reinit(Some(REINIT_GROUP_ID.to_vec()), mls_rs::ProtocolVersion::MLS_10, suite, ExtensionList::new())?,
             };
@@ -447,13 +474,14 @@ impl World {
         let kp2 = kp.clone();
         let leaf = if let Prop::Remove(x) = pr { Some(self.leaf_of(*x)) } else { None };
         let suite = CipherSuite::new(self.cfg.suite);
+        let ext = if let Prop::Gce(v) = pr { self.context_ext(Some(*v)) } else { ExtensionList::new() };
         let g = self.gm(by);
         let m = match pr {
             Prop::Add(_) => g.propose_add(kp.unwrap(), vec![]),
             Prop::Remove(_) => g.propose_remove(leaf.unwrap(), vec![]),
             Prop::ExternalPsk(id) => g.propose_external_psk(Self::psk_id(*id), vec![]),
             Prop::ResumptionPsk(e) => g.propose_resumption_psk(*e, vec![]),
-            Prop::Gce(v) => g.propose_group_context_extensions(custom_ext(*v), vec![]),
+            Prop::Gce(_) => g.propose_group_context_extensions(ext, vec![]),
             Prop::Custom(v) => g.propose_custom(CustomProposal::new(ProposalType::new(CUSTOM_PROP), vec![*v]), vec![]),
             Prop::ReInit => g.propose_reinit(Some(REINIT_GROUP_ID.to_vec()), mls_rs::ProtocolVersion::MLS_10, suite, ExtensionList::new(), vec![]),
         }?;
